@@ -7,6 +7,11 @@ NOT_DECIDED = {
     "C11": ["independence from process schedules: reduced to the assumed contract of multiprocessing.Pool.map",
             "max_returns = m clause: rapidfuzz extract(limit=) and sorted()[:limit] are not modelled (max_returns is None in the verified domain)"],
     "C14": ["nearest_neighbor_tcrdist: pwseqdist is not installed; the TCRdist part is outside the functions under contract"],
+    "C17": ["that every individual item is EQUALLY LIKELY to be kept (subsample / downsample): a statement about the distribution of numpy's "
+            "generator; numpy.random.choice / DataFrame.sample are assumed to draw uniformly, no contract decides it",
+            "powerlaw_mle_alpha 'exact': that scipy's bounded search returns the GLOBAL minimiser is an assumed contract of "
+            "scipy.optimize.minimize_scalar (the objective is convex in alpha, so local = global); what is proved is that the objective handed "
+            "to it is minus the discrete log-likelihood of the counts >= cmin with the documented default bounds"],
     "C06": ["the multinomial factorial-moment identity is an assumed axiom about the sampling model (bounded exact validation reported)"],
 }
 
